@@ -245,6 +245,7 @@ func LoadS2(fset *token.FileSet, scratch string) ([]*Pkg, error) {
 	}
 	writeContextPairs(mod)
 	writeVisitorShapes(mod)
+	writeTypeCycles(mod)
 	return LoadDirs(fset, mod, "S2", []string{"./..."})
 }
 
